@@ -346,7 +346,7 @@ fn structured_stream(out: &mut Out, rng: &mut SplitMix64)
 
 fn fault_stream(out: &mut Out, rng: &mut SplitMix64)
 {
-    let nfault = if thorough() { 600 } else { 60 };
+    let nfault = if thorough() { 300 } else { 60 };
     for it in 0..nfault
     {
         // the permutation of the failing call
